@@ -342,4 +342,8 @@ def run(F, rep):
     import recursion as _recw
     _recw.rule_walkers(F, rep, 'C06.W1', ['flattenComponentImports', 'updateComponentsVariablesUnitsNames', 'findAndReplaceComponentsCnUnitsNames', 'componentNames', 'createComponentNamesMap', 'unitsUsed', 'generateEquivalenceMap'], 7, 'flattening, renaming units and carrying equivalences over')
 
+    # ------------------------------------------------------------------ loop-carried locals
+    from engines import rule_loop_state
+    rule_loop_state(F, rep, 'C06.S1', lambda g: g.file.endswith(('/importer.cpp', '/utilities.cpp')), 'importer.cpp and utilities.cpp')
+
 
